@@ -130,6 +130,19 @@ for f in d['files']:
             merged.append((a, b))
     if merged:
         lines_out.append('%s: %s' % (f['filename'].split('/repo/')[1], ' '.join('%d-%d' % m if m[0] != m[1] else str(m[0]) for m in merged)))
+lines_out.append('')
+lines_out.append('# branches with a side never taken (file:line:col  true-count/false-count); `if constexpr` alternatives and template instantiations appear here too')
+for f in d['files']:
+    if '/repo/' not in f['filename']:
+        continue
+    agg = {}
+    for br in f.get('branches', []):
+        key = (br[0], br[1])
+        t, fl = agg.get(key, (0, 0))
+        agg[key] = (t + br[4], fl + br[5])
+    for (ln, col), (t, fl) in sorted(agg.items()):
+        if t == 0 or fl == 0:
+            lines_out.append('%s:%d:%d  %d/%d' % (f['filename'].split('/repo/')[1], ln, col, t, fl))
 open(os.path.join(out, 'uncovered.txt'), 'w').write('\n'.join(lines_out) + '\n')
 print(json.dumps(tot))
 shutil.rmtree(raw, ignore_errors=True)
